@@ -67,7 +67,41 @@ StreamCodes(e) ==
                 \cup (IF Len(e.v.n) # Len(e.r.n) THEN {<<"C06.shape", Len(e.r.n)>>}
                       ELSE {<<"C06.node", i>> : i \in {j \in 1..Len(e.v.n) : ~NodeSame(C, e.v.n[j], e.r.n[j])}}))
 
+(* ---- alternative encodings produced by the reference encoder (HCodec) ---- *)
+YearOneMs == <<255, 255, 199, 124, 237, 211, 40, 0>>     \* ms of 0001-01-01T00:00:00Z
+ZeroSlot(T, t) ==
+  LET k == T[t].kind IN
+  CASE k = "bool" -> [k |-> "bool", v |-> 0]
+    [] k \in {"int", "int8", "int16", "int32", "int64", "uint", "uint8", "uint16", "uint32", "uint64"} ->
+         [k |-> "int", g |-> k, b |-> <<0, 0, 0, 0, 0, 0, 0, 0>>]
+    [] k \in {"float32", "float64"} -> [k |-> "f", g |-> k, b |-> <<0, 0, 0, 0, 0, 0, 0, 0>>]
+    [] k = "string" -> [k |-> "str", b |-> <<>>]
+    [] k = "time" -> [k |-> "time", z |-> 1, b |-> YearOneMs, sub |-> 0]
+    [] OTHER -> [k |-> "nil"]
+ZeroDropped(v, T, dropped) ==
+  [v EXCEPT !.n = [i \in 1..Len(v.n) |->
+     IF v.n[i].k # "obj" THEN v.n[i]
+     ELSE [v.n[i] EXCEPT !.f = [j \in 1..Len(v.n[i].f) |->
+             IF \E d \in 1..Len(dropped) : dropped[d] = <<i, j>> THEN ZeroSlot(T, T[v.n[i].t].ft[j]) ELSE v.n[i].f[j]]]]]
+
+AltCodes(e) ==
+  LET C == [n |-> e.v.n, T |-> e.T]
+      pr == ParseWhole(e.in)
+      exact == e.mode = "exact"
+  IN IF ~pr.ok THEN {<<"gen.malformed", pr.at>>}
+     ELSE IF exact /\ {c \in Den(C, pr.w, e.v.r, S0(C), 0).bad : c[1] \notin {"C07.shortest", "C08.shortest", "C02.dateUnit"}} # {}
+          THEN {<<"gen.notDenoting", 0>>}
+     ELSE IF e.panic = 1 THEN {<<"C03.panic", 0>>}
+     ELSE IF e.err = 1 THEN {<<"C03.error", 0>>}
+     ELSE IF e.carrier = 1 THEN {<<"C06.carrier", 0>>}
+     ELSE (IF e.used # Len(e.in) THEN {<<"C03.consumed", e.used>>} ELSE {})
+          \cup (IF exact /\ e.r0ok = 1
+                THEN {<<"C03.value", c[2]>> : c \in SameCodes([n |-> e.r0.n, T |-> e.T], e.r0, e.r)}
+                ELSE {<<(IF exact THEN "C03.value" ELSE "C05.value"), c[2]>> :
+                        c \in SameCodes(C, ZeroDropped(e.v, e.T, e.dropped), e.r)})
+
 Codes(e) == CASE e.ev = "rt" -> RtCodes(e)
+              [] e.ev = "alt" -> AltCodes(e)
               [] e.ev = "stream" -> StreamCodes(e)
               [] OTHER -> {<<"trace.unknownEvent", 0>>}
 
